@@ -246,8 +246,10 @@ def history_case(rng, mode, idx, maxlen):
         elif r < 0.96:
             i = rng.randint(0, 2)
             ops.append(new_iv(i))       # replaces the register object; attached copies are not affected
-        elif r < 0.98:
+        elif r < 0.975:
             ops.append("p.get %d" % k)
+        elif r < 0.98:
+            ops.append("p.con %d" % k)
         elif r < 0.99:
             ops += ["p.mh %d %d" % (k, rng.randint(0, 2)), "p.msgs"]
         else:
